@@ -72,7 +72,8 @@ Judge(e, W, M, tt, aux, x) ==
            res == NF(M, MaskUnmapped(M, x.obj))
            seen == conforming /\ key \in DOMAIN aux.memo
            pairViol == IF seen /\ ~x.pn /\ aux.memo[key].res # res
-                       THEN {VG(IF aux.memo[key].tf = x.ptf THEN "C05.history_free" ELSE "C05.payload_free", M.path)} ELSE {}
+                       THEN RtDiff(IF aux.memo[key].tf = x.ptf THEN "C05.history_free" ELSE "C05.payload_free", M, M.zero, aux.memo[key].res, res)
+                       ELSE {}
            echo1 == aux.echo.st = 1 /\ fresh /\ x.ptf = aux.echo.plan
            echo3 == aux.echo.st = 3 /\ fresh /\ x.ptf = aux.echo.back
            ctx08 == [M |-> M, s |-> aux.echo.s, s2 |-> x.obj, dg |-> x.dg, pn |-> x.pn]
